@@ -920,6 +920,7 @@ impl Vm {
         self.fiber.sleep();
 
         let import_fiber = self.create_fiber(fun, Some(self.fiber));
+        self.fiber.wait_for_import(import_fiber);
 
         self.fiber_queue.push_back(import_fiber);
         ExecutionSignal::ContextSwitch
@@ -1002,6 +1003,7 @@ impl Vm {
         self.fiber.sleep();
 
         let import_fiber = self.create_fiber(fun, Some(self.fiber));
+        self.fiber.wait_for_import(import_fiber);
 
         self.fiber_queue.push_back(import_fiber);
         ExecutionSignal::ContextSwitch
